@@ -17,6 +17,7 @@ import Driver.Trace
 import Driver.TraceIn
 import Driver.TraceContent
 import Driver.TraceDisc
+import Driver.TraceKA
 /-! `mdrv`: the model behind a one-line-in / one-line-out protocol (DESIGN.md Appendix B).
 Imports Model/Spec/Gen only (no Mathlib, so it links as a native executable). -/
 open Mqtt5V
@@ -88,6 +89,7 @@ def pureStep (ws : List String) : String :=
   | "tracein" :: toks => Driver.TraceIn.step toks
   | "tracecontent" :: toks => Driver.TraceContent.step toks
   | "tracedisc" :: toks => Driver.TraceDisc.step toks
+  | "traceka" :: toks => Driver.TraceKA.step toks
   | "enc" :: _ => Driver.Codec.step ws
   | "dupenc" :: _ => Driver.Codec.step ws
   | "varlen" :: _ => Driver.Codec.step ws
